@@ -160,6 +160,127 @@ func (w *Worker) solverFixture(f sField, builder, slot int, restored bool) (*sFi
 	return fx, nil
 }
 
+// very wide levels: the level-parallel path of the solver splits a level among the workers; the
+// split has corner cases that only show for thousands of instructions in one level and dozens of
+// workers. Level 0: K multiplications (x+i)*y (each solves a wire); level 1: K assertions
+// "product_i == c + i*y", the last `tail` of them against a second public input c2 (= c in a
+// valid witness), so that a broken c2 violates only the tail of the level.
+type wideLevelCircuit struct {
+	X, Y  frontend.Variable
+	C, C2 frontend.Variable `gnark:",public"`
+	k     int
+	tail  int
+}
+
+func (c *wideLevelCircuit) Define(api frontend.API) error {
+	for i := 0; i < c.k; i++ {
+		p := api.Mul(api.Add(c.X, i), c.Y)
+		rhs := c.C
+		if i >= c.k-c.tail {
+			rhs = c.C2
+		}
+		api.AssertIsEqual(p, api.Add(rhs, api.Mul(c.Y, i)))
+	}
+	return nil
+}
+
+type wideFx struct {
+	cs    constraint.ConstraintSystem
+	view  *csView
+	valid witness.Witness
+	bad   witness.Witness
+	vecs  [2][]*big.Int
+	err   error
+}
+
+var wideCache = map[string]*wideFx{}
+
+var wideLevels = []int{3255, 3300, 3711, 4001, 4090, 3160, 2500, 777}
+
+func wideFixture(curve ecc.ID, builder, k int) *wideFx {
+	key := fmt.Sprintf("%s/%d/%d", curve, builder, k)
+	if f, ok := wideCache[key]; ok {
+		return f
+	}
+	f := &wideFx{}
+	wideCache[key] = f
+	q := curve.ScalarField()
+	tpl := &wideLevelCircuit{k: k, tail: 20}
+	if builder == 0 {
+		f.cs, f.err = frontend.Compile(q, r1cs.NewBuilder, tpl)
+	} else {
+		f.cs, f.err = frontend.Compile(q, scs.NewBuilder, tpl)
+	}
+	if f.err != nil {
+		return f
+	}
+	f.view = viewOf[constraint.U64](f.cs, builder == 0)
+	for i, c2 := range []int64{35, 36} {
+		a := &wideLevelCircuit{X: 5, Y: 7, C: 35, C2: c2, k: k, tail: 20}
+		var w witness.Witness
+		if w, f.err = frontend.NewWitness(a, q); f.err != nil {
+			return f
+		}
+		if i == 0 {
+			f.valid = w
+		} else {
+			f.bad = w
+		}
+		f.vecs[i] = []*big.Int{big.NewInt(35), big.NewInt(c2), big.NewInt(5), big.NewInt(7)}
+	}
+	return f
+}
+
+var wideTasks = []int{1, 16, 50, 64, 70, 96, 128}
+
+func c06Wide(w *Worker, tape *simrt.Tape, o *Outcome) *Outcome {
+	ch := func(n int) int { return tape.Choose(simrt.SWorkload, n) }
+	curve := w.curves()[0]
+	builder := ch(2)
+	k := wideLevels[ch(len(wideLevels))]
+	nb := wideTasks[ch(len(wideTasks))]
+	bad := ch(2) == 1
+	f := wideFixture(curve, builder, k)
+	bn := []string{"r1cs", "scs"}[builder]
+	where := "solver:" + bn + ":wide-level"
+	o.Desc = fmt.Sprintf("%s/%s wide level of %d instructions, tasks=%d, witness valid=%v", curve, bn, k, nb, !bad)
+	o.NonTrivial = true
+	o.probe("wide_level")
+	if f.err != nil {
+		o.violate("fixture", "fixture:"+where, f.err.Error())
+		return o
+	}
+	wit, vec := f.valid, f.vecs[0]
+	if bad {
+		wit, vec = f.bad, f.vecs[1]
+	}
+	cfg := drawPolicy(tape)
+	cfg.HotPeriod = 512
+	var sol any
+	var err error
+	res := w.RunSim(cfg, func() { sol, err = f.cs.Solve(wit, solver.WithNbTasks(nb)) })
+	o.Sims = append(o.Sims, res)
+	o.Evals++
+	if simViolation(o, &res, where) {
+		o.Viol.Msg += "\ncase: " + o.Desc
+		return o
+	}
+	switch {
+	case bad && err == nil:
+		o.violate("wrong-verdict", "wrong-verdict:"+where, "Solve succeeded although the last assertions of the wide level are violated\ncase: "+o.Desc)
+	case !bad && err != nil:
+		o.violate("wrong-verdict", "wrong-verdict:"+where, "Solve of a valid witness failed: "+err.Error()+"\ncase: "+o.Desc)
+	case !bad:
+		if msg := f.view.checkSolution(toBytes(sol), vec); msg != "" {
+			o.violate("bad-solution", "bad-solution:"+where, msg+"\ncase: "+o.Desc)
+		}
+	}
+	if o.Viol != nil {
+		o.Viol.Trace = res.Trace
+	}
+	return o
+}
+
 var errInjectedHint = errors.New("injected hint failure")
 
 var c06Tasks = []int{1, 2, 3, 5, 16, 64, 512}
@@ -167,6 +288,9 @@ var c06Tasks = []int{1, 2, 3, 5, 16, 64, 512}
 func c06Run(w *Worker, tape *simrt.Tape) *Outcome {
 	o := &Outcome{}
 	ch := func(n int) int { return tape.Choose(simrt.SWorkload, n) }
+	if ch(8) == 0 {
+		return c06Wide(w, tape, o)
+	}
 	fields := solverFields(w)
 	var f sField
 	switch ch(4) {
